@@ -37,6 +37,8 @@ LeavesOf(f) ==
       [] f = "blocks" -> {Name("A"), Name("B"), Lit(3)}
       \* who sees which binding: operands of infix operators, branches, sub-expressions, all binding and reading A / B
       [] f = "scopes" -> {Name("A"), Name("B"), Lit(1), Lit(2)}
+      \* what tree::simplify rewrites: empty expressions next to one other member, E?, format strings, ALT in ALT
+      [] f = "simp" -> {Emp, Lit(1)}
       \* a user binding that carries the name of a builtin word, read at several block depths
       [] f = "shadow" -> {Name("length"), Name("A"), Lit(3)}
       \* sub-chains that are fed several times, each time a stream of several stacks: multi-yield chunks as leaves
@@ -53,6 +55,7 @@ UnaryOf(f) ==
       [] f = "scopes" -> {"letA", "letB", "scopeA", "subA", "capA", "sub?", "fmt1"}
       [] f = "refeed" -> {"let1", "fmt1", "opt", "star", "sub?"}
       [] f = "shadow" -> {"bapply", "scopeL", "letL", "letFcall"}
+      [] f = "simp" -> {"opt", "cap", "sub?", "fmts"}
 
 BinaryOf(f) ==
     CASE f = "altor" -> {"cat", "alt", "or"}
@@ -64,6 +67,7 @@ BinaryOf(f) ==
       [] f = "scopes" -> {"cat", "eq", "alt", "or"}
       [] f = "refeed" -> {"cat", "or"}
       [] f = "shadow" -> {"cat"}
+      [] f = "simp" -> {"cat", "alt", "or"}
 
 MkUnary(u, a) ==
     CASE u = "cap"  -> Cap(a)
